@@ -26,9 +26,12 @@ struct C17 : Scenario {
                 "bucket spacing >= grid width (the property's proviso); rotations and grid sizes bounded for run time"};
     }
 
-    Plan generate(uint64_t seed, long, const std::string& tier) const override {
+    Plan generate(uint64_t seed, long index, const std::string& tier) const override {
         Rng r(seed);
         Plan p;
+        // the valgrind batch (indices from 500000) is there for what ASan cannot see, use of uninitialised values; that lives in
+        // the readers of the three kinds of input file, so every run of that batch carries damaged input files
+        const bool vg = index >= 500000;
         SwarmOpts o;
         o.max_grid = tier == "quick" ? 40 : 96; o.min_grid = 8;
         o.max_rot_steps = tier == "quick" ? 6 : 14; o.min_rot_steps = 0;
@@ -71,7 +74,7 @@ struct C17 : Scenario {
         }
         // long histories on a tiny grid: per-step tables and queues (RF modulation, tracks, record buffers) are filled and consumed
         // in blocks; step counts are placed just past powers of two so that a block boundary is crossed
-        bool longrun = r.chance(0.07);
+        bool longrun = !vg && r.chance(0.07);
         if (longrun) {
             c.grid = r.range(8, 10); c.steps = r.range(50, 200);
             long base = r.pick(std::vector<long>{1024, 2048, 4096, 8192, 16384, 16384, 32768, 65536});
@@ -92,7 +95,7 @@ struct C17 : Scenario {
         // run-time bound of the harness (not of the property): very short natural bunch lengths make the bucket spacing,
         // hence the transform length, explode (impedance models over 10^5..10^6 frequencies take minutes under ASan)
         {
-            const size_t cap = tier == "quick" ? 20000 : 70000;
+            const size_t cap = vg ? 2048 : tier == "quick" ? 20000 : 70000;   // (valgrind runs ~50x slower: short transforms there)
             if (derive(c).wake_nmax > cap || derive(c).padded_bins > cap) { c.fs = 0; c.VRF = 1e6; }
             if (derive(c).wake_nmax > cap) c.H = 50;
             if (derive(c).wake_nmax > cap) { c.currents.resize(std::min<size_t>(c.currents.size(), 3)); if (c.currents[0] <= 0) c.currents[0] = 1e-3; }
@@ -102,7 +105,7 @@ struct C17 : Scenario {
         std::string ops;
         auto addop = [&](const std::string& s) { ops += (ops.empty() ? "" : ",") + s; };
         // ---- impedance file
-        if (r.chance(0.45)) {
+        if (r.chance(vg ? 0.7 : 0.45)) {
             c.impedance = "imp.dat";
             size_t N = d.wake_nmax;
             std::vector<long> rowsopt = {0, 1, (long)N / 2 - 1, (long)N / 2, (long)N, 3 * (long)N, r.range(2, (long)N)};
@@ -124,7 +127,7 @@ struct C17 : Scenario {
             plan_file(p, "imp.dat", t);
         }
         // ---- tracking file
-        if (r.chance(0.4)) {
+        if (r.chance(vg ? 0.6 : 0.4)) {
             c.tracking = "track.txt";
             std::string t;
             int k = (int)r.range(0, 4);
@@ -141,6 +144,7 @@ struct C17 : Scenario {
         }
         // ---- start distribution
         double u = r.unit();
+        if (vg) u *= 0.5;      // start file in 60 % of the valgrind runs (text 24 %, HDF5 36 %)
         if (u < 0.12) {
             c.startfile = "start.txt";
             std::string t;
@@ -153,7 +157,7 @@ struct C17 : Scenario {
         } else if (u < 0.3) {
             c.startfile = "start.h5";
             if (r.chance(0.5)) c.currents = {1e-3};   // (a start file forces one bunch; several currents with it are still accepted)
-            int k = (int)r.range(0, 6);
+            int k = (int)r.range(0, 9);      // 7..9: the right shape stored with another element type
             p.seti("h5start.kind", k);
             p.seti("h5start.arg", r.range(0, 1000000));
             addop("h5start_kind" + std::to_string(k));
@@ -190,6 +194,9 @@ struct C17 : Scenario {
             case 3: h5_write_f32(f, "/PhaseSpace/data", {0, n, n}, {}); break;                                     // zero records
             case 4: h5_write_f32(f, "/PhaseSpace/data", {n, n}, data(n * n)); break;                               // rank 2
             case 5: { h5_write_f32(f, "/PhaseSpace/data", {3, n, n}, data(3 * n * n)); std::string s = read_file(f); write_file(f, s.substr(0, 8 + (size_t)arg % (s.size() - 8))); break; } // torn
+            case 7: h5_write_as(f, "/PhaseSpace/data", {2, n, n}, data(2 * n * n), 'd'); break;                   // float64 (numpy/h5py default, double-precision build)
+            case 8: h5_write_as(f, "/PhaseSpace/data", {1, n, n}, data(n * n), arg % 2 ? 'q' : 'i'); break;       // integers
+            case 9: h5_write_as(f, "/PhaseSpace/data", {2, n, n}, data(2 * n * n), 'h'); break;                   // big-endian float32
             default: { unsigned long long m = n > 9 ? n - 3 : n + 2; h5_write_f32(f, "/PhaseSpace/data", {1, 2, m, n}, data(2 * m * n)); break; }        // non-square, 2 bunches
             }
         }
